@@ -275,6 +275,13 @@ class TwinHistory(RecHistory):
                 self.on("set", a)
                 self.on("set", self.best)
             return
+        if k < 72:
+            # a block that repeats a payload of an ancestor far below the tip (possibly finalized / deallocated):
+            # stateful duplicate -> BLOCK_FAILED_POP at connect on both twins (finalized payload index in F)
+            a = bad_block(g, self, self.best, "dup")
+            self.show(a, order="inorder")
+            self.on("cmp", a)
+            return
         if k < 80:
             self.on("cmp", r.choice(ids[-12:] if r.chance(2, 3) else ids))
             return
@@ -306,7 +313,7 @@ def gen_twin(rng, cfg, nsteps):
     return g, h.rec
 
 
-def emit_twin(sc, ops, mode, tag, save_every=1, check_every=5):
+def emit_twin(sc, ops, mode, tag, save_every=1, check_every=5, corr_every=0):
     """F = finalizing instance, N = never finalizing (cfg of N: see C09.py, N is created by `instn`).
     mode: 'fin'    F is a plain instance: after every step saveTrees + public finalizeBlocks()
           'loaded' F is a loaded instance (save+reload at the start): finalization runs automatically in
@@ -321,7 +328,12 @@ def emit_twin(sc, ops, mode, tag, save_every=1, check_every=5):
         if i % save_every == 0:
             sc.add("on F save")
             if mode == "fin":
-                sc.add("on F fin")
+                if corr_every and (i // save_every) % corr_every == 0:
+                    a = sc.add("on F adump", (tag, "pre", i))
+                    sc.add("on F fin")
+                    sc.add("on F adump", (tag, "post", i, a))
+                else:
+                    sc.add("on F fin")
         if i % check_every == 0:
             sc.add("on F paircheck N", (tag, "check", i))
     sc.add("on F save")
@@ -333,3 +345,78 @@ def emit_twin(sc, ops, mode, tag, save_every=1, check_every=5):
     sc.add("on N final", (tag, "finalN"))
     sc.add("drop F")
     sc.add("drop N")
+
+
+# ---------------------------------------------------------------------------
+# C09 correspondence: finalizeBlocks of the extracted model vs AltBlockTree::finalizeBlocks
+import re as _re
+
+_ALT = _re.compile(r"^ALT_(a\d+)_h=(\d+)_st=(\d+)((?:_D)?)((?:_F)?)_pl=\[([^\]]*)\]")
+
+
+def num(x):
+    """wire number of an id: a<n> -> n, v -> 1e6+n, w -> 2e6+n, t -> 3e6+n"""
+    if not x or x[0] == "?":
+        return 9999999
+    base = {"a": 0, "v": 1000000, "w": 2000000, "t": 3000000, "b": 4000000}[x[0]]
+    return base + int(x[1:])
+
+
+def parse_adump(s):
+    d = {"blocks": {}, "tips": [], "root": None, "best": None, "fp": set()}
+    for l in s.split(";"):
+        m = _ALT.match(l)
+        if m:
+            pl = [x for x in _re.split(r"[,|]", m.group(6)) if x]
+            d["blocks"][m.group(1)] = dict(h=int(m.group(2)), st=int(m.group(3)), dirty=bool(m.group(4)),
+                                           final=bool(m.group(5)), pl=pl)
+        elif l.startswith("ALT_tips"):
+            d["tips"] = [x for x in l.split("_")[2:] if x]
+        elif l.startswith("ALT_root_"):
+            d["root"] = l[len("ALT_root_"):]
+        elif l.startswith("ALT_best_"):
+            d["best"] = l[len("ALT_best_"):]
+        elif l.startswith("ALT_fpidx_"):
+            w = l.split("_")
+            d["fp"].add("%d:%d" % (num(w[2]), num(w[-1])))
+    return d
+
+
+def model_fin_line(g, d, maxreorg, preserve, reverse_tips=False):
+    """input line of the model driver for `fin` on the tree described by a parsed adump"""
+    chain = []
+    c = d["best"]
+    while c is not None and c in d["blocks"]:
+        chain.append(c)
+        if c == d["root"]:
+            break
+        c = g.alt[c]["parent"]
+    chain.reverse()
+    tips = list(d["tips"])
+    if reverse_tips:
+        tips.reverse()
+    bl = []
+    for a, b in sorted(d["blocks"].items(), key=lambda kv: num(kv[0])):
+        par = "-" if a == d["root"] else str(num(g.alt[a]["parent"]))
+        bl.append("%d:%s:%d:%d:%d:%s" % (num(a), par, b["h"], 1 if b["dirty"] else 0, 1 if b["final"] else 0,
+                                         ".".join(str(num(x)) for x in b["pl"]) or "-"))
+    return "fin %d %d - %s %s %s" % (maxreorg, preserve, ",".join(str(num(x)) for x in chain) or "-",
+                                     ",".join(str(num(x)) for x in tips) or "-", ";".join(bl))
+
+
+def impl_fin_view(g, pre, post):
+    """what the implementation did, in the model driver's output format"""
+    chain = []
+    c = post["best"]
+    while c is not None and c in post["blocks"]:
+        chain.append(c)
+        if c == post["root"]:
+            break
+        c = g.alt[c]["parent"]
+    chain.reverse()
+    ids = sorted(num(a) for a in post["blocks"])
+    fin = sorted(num(a) for a, b in post["blocks"].items() if b["final"])
+    tips = sorted(num(a) for a in post["tips"])
+    fp = sorted(post["fp"] - pre["fp"])
+    j = lambda l: ",".join(str(x) for x in l) or "-"
+    return "chain=%s blocks=%s final=%s tips=%s fp=%s" % (j([num(x) for x in chain]), j(ids), j(fin), j(tips), j(fp))
